@@ -806,6 +806,27 @@ func (lg *ledger) comparable(k ssa.Value, blk *ssa.BasicBlock) oblPred {
 						return true, "dominating branch " + lg.condString(f)
 					}
 				}
+				// the value and its type are kept side by side (kv, kvT = kv.Convert(keyT), keyT): two phis of one
+				// block whose edges pair up, the type on each edge being the type of the value on that edge
+				if tp, isTP := recv.(*ssa.Phi); isTP {
+					if vp, isVP := throughCell(k).(*ssa.Phi); isVP && vp.Block() == tp.Block() && len(vp.Edges) == len(tp.Edges) {
+						paired := len(vp.Edges) > 0
+						for i := range vp.Edges {
+							ek, hit := lg.key(tp.Edges[i]), false
+							for _, tk := range lg.valueTypeKeys(vp.Edges[i]) {
+								if tk == ek {
+									hit = true
+								}
+							}
+							if !hit {
+								paired = false
+							}
+						}
+						if paired {
+							return true, "dominating branch " + lg.condString(f) + " (the type kept beside the value)"
+						}
+					}
+				}
 			}
 		}
 		// a key that is one of several values (kept as it is, or converted to the key type): each of them,
